@@ -33,6 +33,9 @@ def bounded(pb, interp, rng, tier):
         ("pulsarbat.transforms.transforms.snippet", "duration in us", lambda z: (z, 100250 * u.us, 32), lambda a: pb.snippet(*a), "baseband"),
         ("pulsarbat.transforms.transforms.time_shift", "shift of 1e-9 samples", lambda z: (z, 1e-9), lambda a: pb.time_shift(*a), "signal"),
         ("pulsarbat.transforms.transforms.time_shift", "Quantity shift in us, cropped", lambda z: (z, 2500 * u.us), lambda a: pb.time_shift(a[0], a[1], crop=True), "baseband"),
+        ("pulsarbat.transforms.transforms.time_shift", "shift array holding nan and inf (accepted or refused, the caller's array stays as it is)", lambda z: (z, np.array([0.5, np.nan])), lambda a: pb.time_shift(*a), "signal"),
+        ("pulsarbat.transforms.transforms.time_shift", "shift array holding inf", lambda z: (z, np.array([np.inf, -1.25])), lambda a: pb.time_shift(*a), "signal"),
+        ("pulsarbat.transforms.transforms.freq_shift", "shift array holding nan", lambda z: (z, np.array([np.nan, 0.1]) * u.kHz), lambda a: pb.freq_shift(*a), "baseband"),
         ("pulsarbat.transforms.transforms.freq_shift", "shift in kHz given as an array", lambda z: (z, np.array([0.1, -0.2]) * u.kHz), lambda a: pb.freq_shift(*a), "baseband"),
         ("pulsarbat.transforms.dedispersion.coherent_dedispersion", "center_freq in GHz, no ref_freq", lambda z: (z, dm), lambda a: pb.coherent_dedispersion(*a), "baseband"),
         ("pulsarbat.transforms.dedispersion.coherent_dedispersion", "ref_freq in GHz", lambda z: (z, dm, ref), lambda a: pb.coherent_dedispersion(a[0], a[1], ref_freq=a[2]), "baseband"),
